@@ -771,6 +771,325 @@ class Probe:
     def shape_of(leaf, mm):
         return tuple(mm.shape) if (mm is not None and mm.shape) else (leaf['array_len'],)
 
+    # -----------------------------------------------------------------------------------------------------------
+    # families of value classes carried behind a type tag (configuration values, fault payloads): every class of the
+    # family x values shared between classes of the same field shape x several orders inside this one process. Every
+    # message must be the C++ image for ITS class - fixed part with tag and length at the compiler's offsets, optional
+    # sub-header struct, payload of the size the header documents for that tag - whatever was serialised before.
+    # -----------------------------------------------------------------------------------------------------------
+    FAMILY_SCALARS = [0, 1, 2, 3, 4, 5, 7, 18, 54, 255, 256, 4800, 9600, 38400, 115200, 460800, 65535, 65536,
+                      2 ** 31 - 1, -1, -2]
+    FAMILY_STRINGS = ['', 'A', 'fusion-engine']
+
+    @staticmethod
+    def _same_fields(a, b):
+        try:
+            if len(a) != len(b):
+                return False
+            for x, y in zip(a, b):
+                if isinstance(x, str) != isinstance(y, str):
+                    return False
+                if not (x == y or (x != x and y != y)):
+                    return False
+            return True
+        except Exception:
+            return False
+
+    def family_values(self, cls, adapter):
+        """Instances of one value class: its default plus the shared pool converted to the class's own field types;
+        kept when the class's construct serialises them and reads the same fields back (a value OF that class)."""
+        import enum
+        arity = len(getattr(cls, '_fields', ()))
+        try:
+            d = cls()
+        except Exception:
+            d = None
+        if arity == 0:
+            raw = [()]
+        elif arity == 1:
+            raw = [(v,) for v in self.FAMILY_SCALARS + self.FAMILY_STRINGS]
+        else:
+            raw = [tuple(range(1, arity + 1)), (0,) * arity, (1,) * arity, (2,) * arity,
+                   tuple((2, 1, 0)[i % 3] for i in range(arity)), tuple(i + 0.5 for i in range(arity))]
+        out = []
+        if d is not None and arity:
+            raw = [tuple(d)] + raw
+        for k, t in enumerate(raw):
+            fields = []
+            for i, v in enumerate(t):
+                if d is None:
+                    fields.append(v)
+                    continue
+                dv = d[i]
+                try:
+                    if isinstance(v, type(dv)) and type(v) is type(dv):
+                        fields.append(v)
+                    elif isinstance(dv, enum.Enum):
+                        if isinstance(v, (str, float)):
+                            raise ValueError
+                        fields.append(type(dv)(v))
+                    elif isinstance(dv, bool):
+                        if isinstance(v, str) or v not in (0, 1):
+                            raise ValueError
+                        fields.append(bool(v))
+                    elif isinstance(dv, float):
+                        if isinstance(v, str):
+                            raise ValueError
+                        fields.append(float(v))
+                    elif isinstance(dv, str):
+                        if not isinstance(v, str):
+                            raise ValueError
+                        fields.append(v)
+                    else:
+                        if isinstance(v, (str, float)):
+                            raise ValueError
+                        fields.append(v)
+                except Exception:
+                    fields = None
+                    break
+            if fields is None:
+                continue
+            try:
+                obj = cls(*fields)
+                own = bytes(adapter.build(obj))
+                back = adapter.parse(own)
+            except Exception:
+                continue
+            if type(back) is not cls or not self._same_fields(tuple(back), tuple(obj)):
+                continue
+            if any(self._same_fields(tuple(o), tuple(obj)) and [type(x) for x in o] == [type(x) for x in obj] for o, _ in out):
+                continue
+            out.append((obj, own))
+        return out
+
+    def value_families(self):
+        ctx = self.ctx
+        try:
+            families = nm.value_families()
+        except Exception as e:
+            ctx.violation('C02/name-map/python-name-missing', 'the value-class registries named by the map cannot be read: %r' % (e,), {})
+            return
+        fam_cov = ctx.cov.setdefault('value_families', {})
+        for fam in families:
+            self.value_family(fam, fam_cov)
+
+    def value_family(self, fam, fam_cov):
+        ctx, table = self.ctx, self.table
+        seen = set()
+
+        def report(s, cls, kind, desc, replay):
+            k = (s['key'], cls.__name__, kind)
+            if k in seen:
+                return
+            seen.add(k)
+            self.violation(s, 'value:' + cls.__name__, kind, desc, dict(replay, mode='value-family', family=fam['name']))
+
+        docs = {}
+        carriers = []
+        for c in fam['carriers']:
+            s = table.get(c['struct'])
+            if s is None:
+                continue
+            leaves = {l['path']: l for l in flatten(table, s)}
+            if c['tag'] not in leaves or c['length'] not in leaves:
+                self.violation(s, c['tag'] if c['tag'] not in leaves else c['length'], 'no-such-member',
+                               'the carrier member named by the map is not declared by the header', {})
+                continue
+            carriers.append(dict(c, s=s, tag_leaf=leaves[c['tag']], len_leaf=leaves[c['length']], subj=nm.class_subject(c['cls'])))
+        if not carriers:
+            return
+        # ---- the items: (class, value, C++ payload image, optional sub-header image)
+        items = []
+        cov = {'classes': 0, 'values': 0, 'documented_formats': {}, 'format_unknown': [], 'steps': 0, 'orders': [],
+               'shared_value_groups': 0, 'largest_group': 0}
+        fam_cov[fam['name']] = cov
+        for ei, e in enumerate(fam['entries']):
+            adapter = e['adapter']
+            cls = getattr(adapter, 'tuple_cls', None)
+            if cls is None:
+                continue
+            hdr, enum_name, tagv = e['doc']
+            if (hdr, enum_name) not in docs:
+                docs[(hdr, enum_name)] = cxl.documented_payload_formats(fv.REPO, hdr, enum_name)
+            tag_name, fmt_text = docs[(hdr, enum_name)].get(tagv, (None, None))
+            fmt = cxl.resolve_payload_format(fmt_text, table)
+            first = carriers[0]['s']
+            if fmt is None:
+                cov['format_unknown'].append('%s (%s::%s: %r)' % (cls.__name__, enum_name, tag_name, fmt_text))
+            else:
+                cov['documented_formats'][cls.__name__] = '%s = %d B' % (fmt[2], fmt[1])
+                try:
+                    own_size = adapter.sizeof()
+                except Exception:
+                    own_size = None
+                ctx.case('family|%s|format' % cls.__name__)
+                if own_size is not None and own_size != fmt[1]:
+                    report(first, cls, 'value-format',
+                           '%s::%s documents the payload format %s (%d bytes, sizes from the compiler); the Python construct of %s is %d bytes'
+                           % (enum_name, tag_name, fmt_text, fmt[1], cls.__name__, own_size),
+                           {'class': cls.__name__, 'documented': fmt_text, 'cxx_size': fmt[1], 'python_size': own_size})
+            sub = b''
+            if e.get('sub'):
+                ss = table.get(e['sub'])
+                if ss is None:
+                    continue
+                subb = bytearray(ss['sizeof'])
+                sl = {l['path']: l for l in flatten(table, ss)}
+                for path, v in e['sub_values'].items():
+                    if path in sl:
+                        subb[sl[path]['offset']:sl[path]['offset'] + sl[path]['size']] = int(v).to_bytes(sl[path]['size'], 'little')
+                sub = bytes(subb)
+            vals = self.family_values(cls, adapter)
+            if vals:
+                cov['classes'] += 1
+            for obj, own in vals:
+                want = own
+                if fmt is not None and len(obj) == 1 and fmt[0] in ('u', 'i', 'enum', 'bool', 'char', 'f'):
+                    v = obj[0]
+                    try:
+                        if fmt[0] in ('u', 'i', 'enum'):
+                            want = int(v).to_bytes(fmt[1], 'little', signed=(fmt[0] == 'i'))
+                        elif fmt[0] == 'bool':
+                            want = bytes([1 if v else 0])
+                        elif fmt[0] == 'char':
+                            raw = v.encode('utf-8')
+                            if len(raw) > fmt[1]:
+                                continue
+                            want = raw + bytes(fmt[1] - len(raw))
+                        else:
+                            want = struct.pack('<f' if fmt[1] == 4 else '<d', v)
+                    except (OverflowError, TypeError, ValueError, AttributeError):
+                        continue             # not a value of the documented C++ type
+                elif fmt is not None and fmt[0] == 'none':
+                    want = b''
+                elif fmt is not None and len(own) != fmt[1]:
+                    continue                 # already reported as value-format
+                if own != want:
+                    report(first, cls, 'value-bytes',
+                           '%r: the construct of the class writes %s; the documented C++ payload (%s) is %s'
+                           % (obj, own.hex(), fmt_text, want.hex()), {'class': cls.__name__, 'value': repr(obj)})
+                    continue
+                items.append({'cls': cls, 'obj': obj, 'want': want, 'sub': sub, 'tag': e['tag'], 'iface': e.get('interface'),
+                              'adapter': adapter, 'ei': ei, 'fmt': (fmt_text if fmt else 'size of the class construct')})
+        cov['values'] = len(items)
+        if not items:
+            return
+
+        def key_of(it):
+            try:
+                k = tuple(it['obj'])
+                hash(k)
+                return k
+            except Exception:
+                return ('unhashable', id(it))
+        groups = {}
+        for it in items:
+            placed = False
+            k = key_of(it)
+            for gk in groups:
+                try:
+                    if gk == k and hash(gk) == hash(k):
+                        groups[gk].append(it)
+                        placed = True
+                        break
+                except Exception:
+                    pass
+            if not placed:
+                groups[k] = [it]
+        glist = list(groups.values())
+        cov['shared_value_groups'] = sum(1 for g in glist if len(set(i['cls'] for i in g)) > 1)
+        cov['largest_group'] = max(len(g) for g in glist)
+
+        history = []
+
+        def step(it, order):
+            cls, obj = it['cls'], it['obj']
+            tail = it['sub'] + it['want']
+            for c in carriers:
+                s, subj = c['s'], c['subj']
+                size = s['sizeof']
+                tl, ll = c['tag_leaf'], c['len_leaf']
+                img = bytearray(size)
+                img[tl['offset']:tl['offset'] + tl['size']] = it['tag'].to_bytes(tl['size'], 'little')
+                img[ll['offset']:ll['offset'] + ll['size']] = len(tail).to_bytes(ll['size'], 'little')
+                img = bytes(img) + tail
+                ctx.case('family|%s|%s|%r|%s' % (s['key'], cls.__name__, obj, history[-1] if history else ''))
+                cov['steps'] += 1
+                replay = {'carrier': s['key'], 'class': cls.__name__, 'value': repr(obj), 'order': order,
+                          'serialised_before_in_this_process': list(history[-6:]), 'cxx_image': img.hex(),
+                          'documented_payload': it['fmt']}
+                where = ' (order: %s; serialised just before: %s)' % (order, '; '.join(history[-3:]) or 'nothing')
+                # ---- write
+                try:
+                    o = c['make'](obj, it['iface'])
+                    b = subj.pack(o)
+                    cs = subj.calcsize(o)
+                except Exception as e:
+                    report(s, cls, 'cannot-pack', '%s carrying %r cannot be serialised: %r%s' % (s['key'], obj, e, where), replay)
+                    history.append('%s(%r) via %s' % (cls.__name__, tuple(obj), s['key']))
+                    continue
+                replay['packed'] = b.hex()
+                got_len = int.from_bytes(b[ll['offset']:ll['offset'] + ll['size']], 'little') if len(b) >= size else None
+                if len(b) != len(img) or got_len != len(tail):
+                    report(s, cls, 'value-size',
+                           '%s carrying %r packed %d bytes with %s = %s; the C++ layout is sizeof(%s) = %d%s + payload %s = %d bytes with %s = %d: packed %s, C++ image %s%s'
+                           % (s['key'], obj, len(b), c['length'], got_len, s['key'], size,
+                              (' + %d-byte sub-header' % len(it['sub'])) if it['sub'] else '', it['fmt'], len(img), c['length'],
+                              len(tail), b.hex(), img.hex(), where), replay)
+                elif b[tl['offset']:tl['offset'] + tl['size']] != img[tl['offset']:tl['offset'] + tl['size']]:
+                    report(s, cls, 'value-tag', '%s carrying %r wrote %s = %s at [%d,%d); the tag of %s is %d%s'
+                           % (s['key'], obj, c['tag'], b[tl['offset']:tl['offset'] + tl['size']].hex(), tl['offset'],
+                              tl['offset'] + tl['size'], cls.__name__, it['tag'], where), replay)
+                elif b[size:] != tail:
+                    report(s, cls, 'value-bytes', '%s carrying %r wrote %s after the fixed part; the C++ encoding is %s%s'
+                           % (s['key'], obj, b[size:].hex(), tail.hex(), where), replay)
+                if cs != len(img):
+                    report(s, cls, 'value-size', '%s carrying %r: calcsize() = %r, the C++ layout has %d bytes%s'
+                           % (s['key'], obj, cs, len(img), where), replay)
+                # ---- read the C++ image, and write the decoded object again
+                try:
+                    o2, n = subj.unpack(img)
+                    v2 = getattr(o2, c['attr'])
+                    b2 = subj.pack(o2)
+                except Exception as e:
+                    report(s, cls, 'value-read', '%s: the C++ image %s of %r is rejected: %r%s' % (s['key'], img.hex(), obj, e, where), replay)
+                    v2 = None
+                else:
+                    if type(v2) is not cls or not self._same_fields(tuple(v2), tuple(obj)) or n != len(img):
+                        report(s, cls, 'value-read', '%s: the C++ image %s decodes to %r (%d bytes consumed); it denotes %r (%d bytes)%s'
+                               % (s['key'], img.hex(), v2, n, obj, len(img), where), replay)
+                    elif b2 != img:
+                        report(s, cls, 'value-bytes', '%s: the object decoded from the C++ image %s packs to %s%s'
+                               % (s['key'], img.hex(), b2.hex(), where), dict(replay, packed=b2.hex()))
+                history.append('%s(%s) via %s' % (cls.__name__, ', '.join(repr(x) for x in obj), s['key']))
+
+        def run_order(name, seq):
+            cov['orders'].append(name)
+            for it in seq:
+                step(it, name)
+
+        # equal values adjacent; the i-th group starts at its i-th class, so that over the values every class of a field shape is
+        # at some point the first of its shape that this process has ever serialised
+        grouped = [it for i, g in enumerate(glist) for it in (g[i % len(g):] + g[:i % len(g)])]
+        run_order('equal values adjacent, the i-th value starting at its i-th class', grouped)
+        run_order('the reverse order', list(reversed(grouped)))
+        sh = list(items)
+        ctx.rng.shuffle(sh)
+        run_order('seeded shuffle of all (class, value) pairs', sh)
+        run_order('registry order, class by class', list(items))
+        # every ordered pair of different classes holding an equal value, the two serialised one after the other
+        pairs = []
+        for g in glist:
+            for a in g:
+                for b_ in g:
+                    if a['cls'] is not b_['cls']:
+                        pairs.append((a, b_))
+        if not ctx.thorough and len(pairs) > 600:
+            ctx.rng.shuffle(pairs)
+            pairs = pairs[:600]
+        cov['ordered_pairs'] = len(pairs)
+        run_order('ordered pairs of different classes with an equal value', [x for p in pairs for x in p])
+
 
 def guard_bytes(n, k=0):
     """Never-zero, non-periodic-looking filler for caller-supplied buffers (a shifted copy does not match)."""
@@ -933,6 +1252,9 @@ def run(ctx, r, only=None):
                               'the name map mentions C++ member %s.%s which the header no longer declares' % (s['key'], m), {})
         ctx.count('structs_probed')
         pr.run_struct(s, subj)
+    # families of value classes behind a type tag, in several orders within this process
+    if not only or str(only.get('member') or '').startswith('value:'):
+        pr.value_families()
     # stage C: the Lean model
     outs = ctx.driver(pr.lines)
     for line, (want, replay), got in zip(pr.lines, pr.expect, outs):
@@ -979,6 +1301,14 @@ def check(ctx):
                        'Array members as a whole: per-element distinct (non-symmetric) content given in every equivalent spelling '
                        '(C-contiguous, Fortran-ordered, transposed view, column-major slice, strided / reversed / read-only views, other byte '
                        'order and exactly converting dtypes, nested list / tuple) must give element [i] (row-major) at offset + i * elem_size. '
+                       'Value classes behind a type tag (every class of the configuration-value and fault-payload registries): the '
+                       'class default and a pool of values shared between classes of the same field shape (small integers, bauds, enum '
+                       'members, strings), each carried by every carrier message (SetConfigMessage, ConfigResponseMessage, '
+                       'FaultControlMessage) in several orders inside one process (equal values adjacent, reversed, seeded shuffle, class by '
+                       'class, every ordered pair of different classes holding an equal value): the message must be the C++ image for ITS '
+                       'class (tag and length at the compiler offsets, sub-header struct, payload of the size the header documents for the '
+                       'tag: struct sizeof from the compiler, fixed-width scalars) whatever was serialised before, calcsize() the same, and '
+                       'the C++ image must decode to that class and value and pack back to itself. '
                        'non-trivial = pattern differs from the base value; distinct = (struct, unit, direction, pattern)')
     ctx.assumptions += [
         'g++ (and clang++ in the thorough tier) on x86-64 stands for "the C++ compiler": the layout theorems are about the table it printed',
